@@ -38,6 +38,16 @@ def srcs_ints(d):
     return {k: [ints(x) for x in v] for k, v in d.items()}
 
 
+def hn(name):
+    """the library's name for the source nothing was bound over -> the key the harness reports it under"""
+    return "default" if name == "default history" else name
+
+
+CYCLE = {"history-source-next": "next", "history-source-prev": "prev"}
+# commands that go through the history completion: asked for again while one is shown, it goes on in the next source
+AGAIN = {"reverse-search-history", "forward-search-history", "incremental-reverse-search-history", "incremental-forward-search-history"}
+
+
 def project(cs, evs, maxentries):
     walk, search = spec_set("HistoryWalk"), spec_set("HistorySearch")
     out = []
@@ -46,6 +56,7 @@ def project(cs, evs, maxentries):
         if e["ev"] == "case":
             cur_src = e["sources"]
             out.append(({"ev": "case", "sources": srcs_ints(cur_src), "maxentries": maxentries,
+                         "names": [sp["name"] for sp in cs.get("sources", [])] or ["default"],
                          "failing": [sp["name"] for sp in cs.get("sources", []) if sp.get("kind") == "fail"]}, e))
     sess = {}
     for e in evs:
@@ -56,6 +67,12 @@ def project(cs, evs, maxentries):
         waits = [e for e in es if e["ev"] == "wait"]
         bad = [e for e in es if e["ev"] in ("panic", "hang", "died", "linger")]
         start = waits[0]["line"] if waits else []
+        # what the application did to the bound sources before this call
+        for e in es:
+            if e["ev"] == "api" and e.get("what", "").startswith("History.") and "sources" in e:
+                op = "add" if e["what"] == "History.Add" else ("delall" if e["arg"] == "*" else "del")
+                cur_src = e["sources"]
+                out.append(({"ev": "api", "op": op, "n": e["arg"], "name": hn(e.get("hname", "")), "sources": srcs_ints(cur_src)}, e))
         out.append(({"ev": "session", "start": start}, {"s": s}))
         stack = []
         lastcmd = None
@@ -78,7 +95,7 @@ def project(cs, evs, maxentries):
                             project._last = {}
                         project._last[id(cs)] = last_search
                     out.append(({"ev": "nav", "cmd": cmd0, "kind": "substr" if mini_text else "other", "delta": 0, "pre": pre, "cur": len(pre),
-                                 "stext": mini_text, "post": e["line"], "rx": False,
+                                 "stext": mini_text, "post": e["line"], "rx": False, "allsrc": True,
                                  "srcsame": b0.get("hsrc") == e0.get("hsrc")}, e0))
                     mini_open = None
                 mini_pending = None
@@ -95,6 +112,12 @@ def project(cs, evs, maxentries):
                     continue
                 cmd = e["cmd"]
                 lastcmd = cmd
+                if "hname" in e and "hname" in b and "?" not in (e["hname"], b["hname"]):
+                    if cmd in CYCLE:
+                        out.append(({"ev": "src", "how": CYCLE[cmd], "name": hn(e["hname"])}, e))
+                    elif e["hname"] != b["hname"]:
+                        # (a history completion asked for again while one is shown goes on in the next source)
+                        out.append(({"ev": "src", "how": "again" if cmd in AGAIN else "other", "name": hn(e["hname"])}, e))
                 if cmd in ("digit-argument", "vi-arg-digit"):
                     ch = chr(b["keys"][-1]) if b.get("keys") else "?"
                     if ch.isdigit() and count != "?":
@@ -128,14 +151,15 @@ def project(cs, evs, maxentries):
                             project._last = {}
                         project._last[id(cs)] = last_search
                     out.append(({"ev": "nav", "cmd": cmd, "kind": "substr" if mini_text else "other", "delta": 0, "pre": pre, "cur": len(pre),
-                                 "stext": mini_text, "post": e["line"], "rx": bool(mini_text) and rx_match(mini_text, e["line"]),
+                                 "stext": mini_text, "post": e["line"], "rx": bool(mini_text) and rx_match(mini_text, e["line"]), "allsrc": True,
                                  "srcsame": b.get("hsrc") == e.get("hsrc") or cmd.startswith("accept") or cmd in RECORD | REPLAY}, e))
                     mini_open = None
                     continue
                 if (cmd in walk or cmd in search) and cmd not in RECORD | REPLAY:
                     pre, post = b["line"], e["line"]
                     single = 10 not in pre
-                    N = len((b.get("hsrc") or {}).get("main", []))
+                    hs = b.get("hsrc") or {}
+                    N = len(hs.get(hn(b.get("hname", "main")), hs.get("main", [])))
                     delta, kind = 0, "walk" if cmd in walk else "other"
                     if n in (None,) or cmd in ("previous-history", "next-history"):
                         if cmd == "previous-history":
@@ -168,7 +192,7 @@ def project(cs, evs, maxentries):
                         # the same text as the last non-incremental search, anywhere in the line
                         if last_search is not None:
                             kind, stext = ("substr" if last_search else "other"), last_search
-                    out.append(({"ev": "nav", "cmd": cmd, "kind": kind, "delta": delta, "pre": pre, "cur": b["cur"], "stext": stext, "post": post, "rx": False,
+                    out.append(({"ev": "nav", "cmd": cmd, "kind": kind, "delta": delta, "pre": pre, "cur": b["cur"], "stext": stext, "post": post, "rx": False, "allsrc": cmd in AGAIN,
                                  "srcsame": b.get("hsrc") == e.get("hsrc")}, e))
                 elif e["line"] != b["line"] and not e["minibuf"]:
                     out.append(({"ev": "edit", "post": e["line"]}, e))
